@@ -81,9 +81,13 @@ def run(ctx):
         # "could not reconstruct / re-encode / rebuild" arms
         exits = [x for x in exit_sites(f) if x["kind"] in ("accept", "may")]
         excused = set()
-        for s in switches_on(ctx, f, [["call:leopard_codec::reconstruct", "call:leopard_codec::encode", "call:*push_leaf"]]):
+        for s in switches_on(ctx, f, [["call:leopard_codec::reconstruct", "call:leopard_codec::encode", "call:*push_leaf", "call:*Namespace::from_raw"]]):
+            de = f.switch_discr_expr(s)
             for d, lab in f.out_edges(s):
-                if edge_call_truth(ctx, f, s, lab, ["*Result*::is_err"]) is not True:
+                err_edge = edge_call_truth(ctx, f, s, lab, ["*Result*::is_err"]) is True
+                if de[0] == "discr" and de[1][0] == "call" and de[1][1].endswith("Namespace::from_raw") and lab != 0:
+                    err_edge = True  # `let Ok(ns) = from_raw(..) else { .. }`: the Err arm
+                if not err_edge:
                     continue
                 for x in exits:
                     if x["block"] not in f.reachable_from([0], removed_edges={(s, d)}):
